@@ -12,6 +12,13 @@ files = every subset of names x every order of the lines, and round trips betwee
 orders), report_array, standard errors and variance-covariance tables against the reference's own Hessian / BHHH, draws for
 sensitivity analysis requested for every ordered selection of names (normal draws with an owned random source, bootstrap
 estimates with an owned resampler).
+
+Written form of the declared values (part 'forms'): the value of a parameter may be written in its declaration as a Python int
+(1) or as a float (1.0); it is the same value.  Whole-number values, ALL 2^3 assignments of the written forms {int, float} to the
+three parameters x the status assignments x all 2^3 name->value dictionaries (non-integer values) given to the live model by
+change_init_values (thorough: also fix_betas and get_value_c(betas=...)): the model, its simulation and its formula hold one value
+per parameter, the one the reference computes from values alone.  Bound: 3 parameters, forms {int, float}, one dictionary per
+object, 1 order-reversing renaming (thorough: 2).
 """
 from __future__ import annotations
 
@@ -29,7 +36,9 @@ RULE = ('one case = one (skeleton, renaming, term order, status assignment) mode
         'estimation family; duplicate cases = one per (kind pair, entry point). Non-trivial = the renaming is not the identity or the term order '
         'is not the canonical one; distinct = distinct tuples. Written values: one case per (model, prefix of a sequence of evaluated points) '
         'with the saved-iterations file read back; iterfile cases = one estimate() per (renaming, status, term order, subset of names, order of '
-        'the lines of a hand-written file) and one per ordered pair of term orders (round trip).')
+        'the lines of a hand-written file) and one per ordered pair of term orders (round trip). Written forms: one case per (skeleton, renaming, '
+        'status assignment, assignment of the written forms int/float to the whole-number declared values of the 3 parameters, subset of names '
+        'in the dictionary given to the live model); all 8 x 8 combinations per status assignment are enumerated; distinct = distinct tuples.')
 ASSUMPTIONS = [
     'estimates compared up to optimiser tolerance (1e-4 relative) on strictly concave problems with a unique interior optimum',
     'a name->value dictionary that names a FIXED parameter does not change it (statement: fixed parameters keep exactly the value they were given)',
@@ -121,11 +130,12 @@ def rename(term, mapping):
     return R.subst(term, {('beta', o): ('beta', n) for o, n in mapping.items()})
 
 
-def spec_for(mapping, statuses):
+def spec_for(mapping, statuses, values=None):
+    values = ORIG if values is None else values
     spec = {}
     for (o, n), st in zip(mapping.items(), statuses):
         lb, ub = BOUNDS[o] if st == 'bounded' else (None, None)
-        spec[n] = (ORIG[o], lb, ub, 1 if st == 'fixed' else 0)
+        spec[n] = (values[o], lb, ub, 1 if st == 'fixed' else 0)
     return spec
 
 
@@ -171,6 +181,14 @@ def tasks(tier, seed):
             t.append(dict(part='setvalues', skeleton=sk, renaming=list(r), tier=tier))
     for lo in range(0, 64, 4):
         t.append(dict(part='exotic', tier=tier, lo=lo, hi=lo + 4, fresh=True))
+    # the way the value of a parameter is WRITTEN in its declaration (1 or 1.0): all 2^3 assignments of written forms to
+    # whole-number values x status assignments (one task each) x all 2^3 dictionaries given to the live model (thorough: also
+    # to the formula and to one evaluation of it)
+    forms_rn = [rn[59]] if tier == 'quick' else [rn[59], rn[23]]
+    for sk in SKELETONS:
+        for r in forms_rn:
+            for si in range(len(status_assignments(tier))):
+                t.append(dict(part='forms', skeleton=sk, renaming=list(r), tier=tier, status=si))
     # the file of saved iterations as an input of estimate(): hand-written files (subsets of names x line orders) and round trips
     for sk in ESTIMABLE:
         for r in (rn if tier == 'thorough' else rn[::3]):
@@ -208,6 +226,8 @@ def run_task(task):
         _exotic(task, rec)
     elif task['part'] == 'iterfile':
         _iterfile(task, rec)
+    elif task['part'] == 'forms':
+        _forms(task, rec)
     return rec.result()
 
 
@@ -654,6 +674,108 @@ def _setvalues(task, rec):
                         m1=m1, m2=m2)
                 if still_free != want_free:
                     bad('fix_betas-status', f'fix_betas{seq}: free parameters afterwards {still_free}, expected {want_free}', m1=m1, m2=m2)
+
+
+# whole-number values: each can be written in a declaration as a Python int (1) or as a float (1.0) -- the same value
+WHOLE_POOLS = [{'p0': 1, 'p1': -2, 'p2': 0}, {'p0': 0, 'p1': 1, 'p2': -1}, {'p0': 2, 'p1': 0, 'p2': 1}]
+WHOLE = WHOLE_POOLS[_SEED % len(WHOLE_POOLS)]
+WRITTEN = {'float': float, 'int': int}
+
+
+def _forms(task, rec):
+    """The written form of the value in the declaration of a parameter is not part of its value: Beta(name, 1, ...) and
+    Beta(name, 1.0, ...) declare the same parameter.  Whole-number values (WHOLE), ALL 2^3 assignments of the written forms
+    {int, float} to the three parameters x status assignments x all 2^3 name->value dictionaries (non-integer values; the
+    empty one = nothing given) handed (a) to the live BIOGEME object (change_init_values) and, in the thorough tier, (b) to
+    the formula (fix_betas), (c) to an evaluation of the formula (get_value_c(betas=...)).  One task = one status assignment.
+
+    Oracles (those of the parts 'diff' and 'setvalues'; the reference sees values only, so the written form cannot matter):
+    before any dictionary the log likelihood is the reference's at the declared values (fixed parameters keep exactly the
+    value they were given); after change_init_values a named free parameter has the dictionary value, the others keep
+    theirs, a named fixed parameter has its given or its named value (both readings accepted), and the model, its
+    simulation and the formula it was built on hold ONE value for every parameter; after fix_betas the named parameters
+    are at the named values; get_value_c(betas=d) overrides the named free parameters only."""
+    from vf.engine import make_db, make_biogeme
+    sk, r, tier = task['skeleton'], tuple(task['renaming']), task['tier']
+    mapping = dict(zip(['p0', 'p1', 'p2'], r))
+    inv = {n: o for o, n in mapping.items()}
+    canonical = SKELETONS[sk][0]
+    variant = SKELETONS[sk][-1]
+    origs = ['p0', 'p1', 'p2']
+    db = make_db(ROWS, COLS)
+    base = {o: float(WHOLE[o]) for o in origs}
+    every_entry = tier == 'thorough'
+    for statuses in [status_assignments(tier)[task['status']]]:
+        st = dict(zip(origs, statuses))
+        free_orig = [o for o in origs if st[o] != 'fixed']
+        fixed_orig = [o for o in origs if st[o] == 'fixed']
+        want_first = sum(ref_values(canonical, base))
+        for forms in itertools.product(sorted(WRITTEN), repeat=3):
+            values = {o: WRITTEN[f](WHOLE[o]) for o, f in zip(origs, forms)}
+            spec = spec_for(mapping, statuses, values)
+            ff = {forms[origs.index(o)] for o in fixed_orig}
+            witness = f"{sk}:fixed-values-written-as-{'mixed' if len(ff) > 1 else ff.pop() if ff else 'none-fixed'}"
+            case0 = dict(part='forms', skeleton=sk, renaming=list(r), status=task['status'], statuses=list(statuses), forms=list(forms), tier=tier)
+            for mask in range(8):
+                named = [o for i, o in enumerate(origs) if mask >> i & 1]
+                dct = {mapping[o]: POINT[o] + 0.125 for o in named}
+                key = ('forms', sk, r, statuses, forms, mask)
+                case = dict(case0, mask=mask)
+
+                def bad(clause, what):
+                    rec.violation(f'C03|{clause}|{witness}', what + f' [renaming {mapping}, statuses {st}, declared values {values}]', case)
+
+                try:
+                    expr = R.Builder(spec).build(rename(variant, mapping))
+                    b = make_biogeme(db, expr)
+                    first = float(b.calculate_init_likelihood())
+                    b.change_init_values(dict(dct))
+                    cur = {nm: float(v) for nm, v in b.get_beta_values().items()}
+                    ll = float(b.calculate_init_likelihood())
+                    sim_ll = float(sum(b.simulate(b.get_beta_values())['log_like']))
+                    alone = float(sum(expr.get_value_c(database=db, prepare_ids=True)))
+                    part = fixed_at = None
+                    if every_entry:
+                        e2 = R.Builder(spec).build(rename(variant, mapping))
+                        part = float(sum(e2.get_value_c(database=db, betas=dict(dct), prepare_ids=True)))
+                        e3 = R.Builder(spec).build(rename(variant, mapping))
+                        e3.fix_betas(dict(dct))
+                        fixed_at = float(sum(e3.get_value_c(database=db, prepare_ids=True)))
+                except Exception as e:
+                    rec.case(key, ('raised', type(e).__name__), outcome='raised')
+                    bad(f'written-form-raised-{type(e).__name__}', f'dictionary {dct}: {str(e)[:200]}')
+                    continue
+                rec.case(key, (sk, r, statuses, forms, mask, round(ll, 9)), outcome=('forms', len(named), len(fixed_orig)))
+                if not close(first, want_first):
+                    bad('fixed-parameter-does-not-keep-the-value-it-was-given',
+                        f'log likelihood at the declared values {first!r}, expected {want_first!r}')
+                    continue
+                if not close(ll, alone) or not close(sim_ll, alone):
+                    bad('model-and-its-formula-hold-different-values-after-change_init_values',
+                        f'change_init_values({dct}): the model reports log likelihood {ll!r} (simulated: {sim_ll!r}) while the formula '
+                        f'it was built on, evaluated on its own, gives {alone!r}')
+                    continue
+                want_free = {o: (POINT[o] + 0.125 if o in named else base[o]) for o in free_orig}
+                got_free = {inv[nm]: v for nm, v in cur.items() if nm in inv}
+                if got_free != want_free:
+                    bad('dictionary-overrides-a-parameter-it-does-not-name',
+                        f'change_init_values({dct}): free parameters now {got_free} (by original name), expected {want_free}')
+                    continue
+                allowed = []
+                for combo in itertools.product(*[[base[o]] + ([POINT[o] + 0.125] if o in named else []) for o in fixed_orig]):
+                    params = dict(want_free)
+                    params.update(dict(zip(fixed_orig, combo)))
+                    allowed.append(sum(ref_values(canonical, params)))
+                if not any(close(ll, w) for w in allowed):
+                    bad('dictionary-overrides-a-parameter-it-does-not-name',
+                        f'change_init_values({dct}): log likelihood at the current values {ll!r}; expected one of {allowed}')
+                want_part = sum(ref_values(canonical, dict(base, **{o: POINT[o] + 0.125 for o in named if o in free_orig})))
+                if part is not None and not close(part, want_part):
+                    bad('partial-dictionary-overrides-wrong-parameters', f'get_value_c(betas={dct}) sums to {part!r}, expected {want_part!r}')
+                want_fix = sum(ref_values(canonical, dict(base, **{o: POINT[o] + 0.125 for o in named})))
+                if fixed_at is not None and not close(fixed_at, want_fix):
+                    bad('fix_betas-value-not-the-one-named', f'fix_betas({dct}): the formula sums to {fixed_at!r}, expected {want_fix!r}')
+    rec.sample(dict(part='forms', skeleton=sk, renaming=mapping, statuses=list(statuses), values=WHOLE))
 
 
 def _beta_free_type():
@@ -1134,6 +1256,8 @@ def replay(case):
         _setvalues(case, rec)
     elif case['part'] == 'iterfile':
         _iterfile(case, rec)
+    elif case['part'] == 'forms':
+        _forms(case, rec)
     elif case['part'] == 'exotic':
         # in a child process: a name the engine cannot parse may take the process down
         import multiprocessing as mp
